@@ -105,6 +105,13 @@ class Scenario:
                             node={"idle_timeout": node_idle, "dwa_timeout": node_dwa, "cea_timeout": 10 ** 6,
                                   "cer_timeout": 10 ** 6}))
         self.h = self.w.h
+        # how the peers write themselves is a function of the parameters (a replay does the same): half of the
+        # scenarios spell their host names with capitals, a third (independently) send an Origin-State-Id everywhere
+        k = h64("style", repr(sorted(self.params.items())))
+        self.style = (M.capitals if k % 2 == 0 else None, 1700000000 + k % 1000 if (k >> 8) % 3 == 0 else None)
+        for i, what in enumerate(("scenarios_with_capitals_in_origin_host", "scenarios_with_origin_state_id")):
+            if self.style[i] is not None:
+                run.cov[what] = run.cov.get(what, 0) + 1
         self.idle = peer_idle or node_idle
         self.dwa = peer_dwa or node_dwa
         self.started = False
@@ -112,6 +119,7 @@ class Scenario:
 
     def connect(self):
         h, M = self.h, self.M
+        M.style(*self.style)
         if not self.started:
             self.w.start()
             self.started = True
@@ -279,6 +287,7 @@ class Scenario:
         return actions
 
     def close(self):
+        self.M.style()
         self.w.teardown()
 
 
